@@ -43,7 +43,7 @@ func c10Expr(r *fw.Rand) ref.Expr {
 	}
 }
 
-var c10Tags = []string{"<b>", "</b>", "<a href=\"http://x/y\">", "<a href=\"http://x/z\">", "</a>", "<br/>", "<br>", "<i>", "</i>", "<span class=\"c\">", "</span>", "<li>", "<p>", "<img src=\"s.png\"/>", "<em>", "<xyz>", "<h1 id=\"t\">",
+var c10Tags = []string{"<my-button kind=\"ok\">", "</my-button>", "<o:p>", "</o:p>", "<svg:rect/>", "<x-1/>", "<b>", "</b>", "<a href=\"http://x/y\">", "<a href=\"http://x/z\">", "</a>", "<br/>", "<br>", "<i>", "</i>", "<span class=\"c\">", "</span>", "<li>", "<p>", "<img src=\"s.png\"/>", "<em>", "<xyz>", "<h1 id=\"t\">",
 	// tag names are case-insensitive: <A>, <BR>, <Img .../>, <tBody> name their placeholders like <a>, <br>, <img/>, <tbody>
 	"<A HREF=\"http://x/y\">", "</A>", "<BR>", "<Br/>", "<IMG SRC=\"s.png\"/>", "<Em>", "</EM>", "<tBody>", "</TBODY>", "<LI>", "<P>", "<B>", "</B>", "<H1>", "<DIV>", "</Div>"}
 
